@@ -119,7 +119,10 @@ func (s *Scope) assign(name string, v interface{}) {
 
 // Cfg selects among the behaviours the statements leave open (DESIGN §2.4).
 type Cfg struct {
-	TrySeparate        bool // try / catch / finally each get their own scope (default: one shared)
+	// TryGroups: how try / catch / finally blocks share scopes: 0 one scope for all three (the
+	// code's current choice), 1 one scope each, 2 try alone and catch+finally together, 3 try+catch
+	// together and finally alone
+	TryGroups          int
 	LoopPerIter        bool // loop body scope per iteration (default: one per loop execution)
 	FinallyAfterAbrupt bool // finally also runs when the catch block exits abruptly (default: no)
 }
@@ -127,7 +130,7 @@ type Cfg struct {
 // AllCfgs enumerates the admitted parameterisations, the code's current choice first.
 func AllCfgs() []Cfg {
 	var out []Cfg
-	for _, a := range []bool{false, true} {
+	for _, a := range []int{0, 1, 2, 3} {
 		for _, b := range []bool{false, true} {
 			for _, c := range []bool{false, true} {
 				out = append(out, Cfg{a, b, c})
@@ -597,15 +600,17 @@ func (m *Model) stmt1(s *N, sc *Scope) ctl {
 			m.feat("try_in_deferred_callee")
 		}
 		c := m.block(s.Ss[0], ts)
+		var catchScope *Scope
 		switch c.s {
 		case sBreak, sCont, sRet:
 			m.unspec("control signal leaves a try body (finding F-try-signal)")
 		case sErr:
 			m.feat("error_caught")
 			cs := ts
-			if m.cfg.TrySeparate {
+			if m.cfg.TryGroups == 1 || m.cfg.TryGroups == 2 {
 				cs = m.newScope("catch", sc)
 			}
+			catchScope = cs
 			if s.S != "" {
 				m.defineVar(cs, s.S, c.err)
 			}
@@ -613,11 +618,7 @@ func (m *Model) stmt1(s *N, sc *Scope) ctl {
 			if c2.s != sNone {
 				m.feat("catch_exits_abruptly")
 				if s.B && m.cfg.FinallyAfterAbrupt {
-					fs := ts
-					if m.cfg.TrySeparate {
-						fs = m.newScope("finally", sc)
-					}
-					if c3 := m.block(s.Ss[2], fs); c3.s != sNone {
+					if c3 := m.block(s.Ss[2], m.finallyScope(ts, catchScope, sc)); c3.s != sNone {
 						return c3
 					}
 				}
@@ -626,11 +627,7 @@ func (m *Model) stmt1(s *N, sc *Scope) ctl {
 		}
 		if s.B {
 			m.feat("finally_run")
-			fs := ts
-			if m.cfg.TrySeparate {
-				fs = m.newScope("finally", sc)
-			}
-			return m.block(s.Ss[2], fs)
+			return m.block(s.Ss[2], m.finallyScope(ts, catchScope, sc))
 		}
 		return ok0
 	case "throw":
@@ -805,6 +802,19 @@ func (m *Model) stmt1(s *N, sc *Scope) ctl {
 	}
 	m.unspec("model: unknown statement kind %s", s.K)
 	return ok0
+}
+
+// finallyScope picks the scope of a finally block under the admitted groupings.
+func (m *Model) finallyScope(try, catch, outer *Scope) *Scope {
+	switch m.cfg.TryGroups {
+	case 0:
+		return try
+	case 2:
+		if catch != nil {
+			return catch
+		}
+	}
+	return m.newScope("finally", outer)
 }
 
 // loopCtl interprets the control result of a loop body:
